@@ -87,6 +87,19 @@ func errorOffset(msg string, input []byte) (int, bool) {
 	return off + col - 1, true
 }
 
+// lineColOf renders an offset as the 1-based line:column the reader documents (inputs without CR): the line is one
+// more than the number of line feeds before the offset, the column counts from the byte after the last of them.
+func lineColOf(input []byte, off int) (int, int) {
+	line, start := 1, 0
+	for i := 0; i < off && i < len(input); i++ {
+		if input[i] == '\n' {
+			line++
+			start = i + 1
+		}
+	}
+	return line, off - start + 1
+}
+
 func isSentenceRoot(c *Sexp) bool { return findArg(c, "root")[0].Head() == "sentence" }
 
 // productive rules: a rule is productive when it derives some terminal string
@@ -406,6 +419,14 @@ func oracleC06(named bool) parseOracle {
 		if !ok {
 			return "error text has no <file>:<line>:<column> suffix: " + msg
 		}
+		// the rendering is canonical: line = 1 + line feeds before the offset, column from the last of them (an offset
+		// mapped back through a line table that misses a line start renders as <previous line>:<past its end>)
+		if m := atRe.FindStringSubmatch(msg); m != nil {
+			wl, wc := lineColOf(files[t].raw, off)
+			if m[2] != strconv.Itoa(wl) || m[3] != strconv.Itoa(wc) {
+				return fmt.Sprintf("error position rendered as %s:%s, offset %d of the input is line %d column %d: %s", m[2], m[3], off, wl, wc, msg)
+			}
+		}
 		_, tf := newCtx(files, t)
 		pos := int(tf.Pos(0)) + off
 		ff := obs.rec2.maxTermFail
@@ -688,6 +709,36 @@ func init() {
 				in := make([]byte, 1+rng.Intn(4))
 				for k := range in {
 					in[k] = al[rng.Intn(3)]
+				}
+				return parseCaseSexp(g, in)
+			}
+			if i%10 == 3 {
+				// multi-line inputs: sequences over {a, b, LF} on a proper prefix of their own sentence, so the furthest
+				// failure is at end of input, often directly after a line feed (the line:column rendering of C06's
+				// position goes through the file's line table)
+				al := []byte("ab\n\n")
+				mk := func() (*Sexp, []byte) {
+					var ts []*Sexp
+					var w []byte
+					for k := 2 + rng.Intn(4); k > 0; k-- {
+						ch := al[rng.Intn(len(al))]
+						ts = append(ts, runeT(ch))
+						w = append(w, ch)
+					}
+					return LA("seq", append([]*Sexp{A("of"), noOpts}, ts...)...), w
+				}
+				body, w := mk()
+				if rng.Intn(3) == 0 {
+					other, _ := mk()
+					body = LA("name", HS("alt"), LA([]string{"choice", "any"}[rng.Intn(2)], body, other))
+				}
+				g := genGrammar{[]*Sexp{body}, LA("sentence", LA("ref", N(0)))}
+				if rng.Intn(3) == 0 {
+					g.env[0] = LA("memo", N(0), body)
+				}
+				in := append([]byte{}, w[:rng.Intn(len(w))]...)
+				if rng.Intn(4) == 0 {
+					in = append(in, al[rng.Intn(len(al))])
 				}
 				return parseCaseSexp(g, in)
 			}
